@@ -156,7 +156,9 @@ def ctlSetPwm (w : World) (target : Int) : World × Res Unit × List Obs :=
     let w := { w with ctl := { w.ctl with lastSet := some target } }
     let skip :=
       supports w.fan w.dev .pwmSensor &&
-      (match ctlGetPwm w with
+      -- the fan itself is read (`f.fan.GetPwm()`, fix "setPwm: read the fan itself"): not `getPwm()`, whose fallback is
+      -- the request recorded just above
+      (match fanGetPwm w.dev with
        | .ok cur => closestExpected == cur
        | _ => false)
     if skip then (w, .ok (), [])
